@@ -1197,6 +1197,30 @@ func DeepCount(p *Prog, f *ssa.Function, pred func(ssa.Instruction) bool, skip f
 	return PathCount(f, weight(nil), skip)
 }
 
+// DeepMin is the least number of pred instructions on any path of f, a call of a followable helper weighing the
+// least its own paths weigh.
+func DeepMin(p *Prog, f *ssa.Function, pred func(ssa.Instruction) bool, skip func(*ssa.BasicBlock) bool) int {
+	var weight func(stack []*ssa.Call) func(ssa.Instruction) int
+	weight = func(stack []*ssa.Call) func(ssa.Instruction) int {
+		return func(ins ssa.Instruction) int {
+			n := 0
+			if pred(ins) {
+				n++
+			}
+			if call, ok := ins.(*ssa.Call); ok {
+				if g := Callee(&call.Call); followable(p, g, stack) {
+					ns := append(append([]*ssa.Call{}, stack...), call)
+					mn, _ := PathCount(g, weight(ns), skip)
+					n += mn
+				}
+			}
+			return n
+		}
+	}
+	mn, _ := PathCount(f, weight(nil), skip)
+	return mn
+}
+
 // LiteralField returns the value stored into the named field of the composite literal v was loaded from.
 func LiteralField(v ssa.Value, name string) ssa.Value {
 	t := v.Type()
